@@ -1459,6 +1459,10 @@ def build_units(repo):
                     elif m.name in ("_filesync_read_buffered", "_filesync_flush"):
                         for suffix, node in loop_method(m, STREAM_EFFECTS):
                             u.add_function("", node, lean="%s_%s" % (tag, suffix), params=[a.arg for a in node.args.args])
+                    elif m.name == "_filesync_read_until":
+                        cond, it, effs, info = loop_iteration(m, {"_filesync_read"})
+                        for node, suffix in [(cond, "cond"), (it, "iter")] + [(e, e.name.split("__")[-1]) for e in effs]:
+                            u.add_function("", node, lean="%s_%s" % (tag, suffix), params=[a.arg for a in node.args.args])
                     elif m.name == "_read_until_close":
                         cond, it, effs, info = loop_iteration(m, STREAM_EFFECTS)
                         for node, suffix in [(cond, "cond"), (it, "iter")] + [(e, e.name.split("__")[-1]) for e in effs]:
